@@ -204,6 +204,8 @@ pub fn gen_plan(prop: &str, seed: u64, index: u64, tier: Tier) -> Plan {
         #[cfg(not(chess_verif_shuttle))]
         "C17" if index % 4 == 3 => gamesc::gen_plan(prop, seed, index, tier),
         #[cfg(not(chess_verif_shuttle))]
+        "C16" if index % 8 == 5 => gamesc::gen_plan(prop, seed, index, tier),
+        #[cfg(not(chess_verif_shuttle))]
         "C02" | "C04" | "C05" | "C06" | "C12" | "C16" | "C17" => hist::gen_plan(prop, seed, index, tier),
         #[cfg(not(chess_verif_shuttle))]
         "C07" | "C08" | "C10" => search::gen_plan(prop, seed, index, tier),
@@ -231,11 +233,11 @@ fn exec_raw(plan: &Plan) -> Outcome {
         #[cfg(not(chess_verif_shuttle))]
         _ if plan.scenario.starts_with("cli-") => cli::exec(plan),
         #[cfg(not(chess_verif_shuttle))]
-        "C02" | "C04" | "C05" | "C06" | "C12" | "C16" | "C17" if plan.scenario != "game-loop" => hist::exec(plan),
+        "C02" | "C04" | "C05" | "C06" | "C12" | "C16" | "C17" if !plan.scenario.starts_with("game-loop") => hist::exec(plan),
         #[cfg(not(chess_verif_shuttle))]
         "C07" | "C08" | "C10" => search::exec(plan),
         #[cfg(not(chess_verif_shuttle))]
-        "C14" | "C15" | "C19" | "C17" => gamesc::exec(plan),
+        "C14" | "C15" | "C19" | "C17" | "C16" => gamesc::exec(plan),
         #[cfg(not(chess_verif_shuttle))]
         "C11" => tables::exec(plan),
         #[cfg(chess_verif_shuttle)]
